@@ -52,7 +52,7 @@ def fromIdx : IndexType → Generated.GIndex
   | .unknown => { indexType := Generated.IndexType_Unknown, value := 0 }
 
 theorem tree_succ (a : Ast) (n p o : Nat) :
-    treeOf a (n + 1) (some (p, o)) = .known (a.opOf p) (a.textOf p) ((a.argsOf p).map (treeOf a n)) := rfl
+    treeOf a (n + 1) (some (p, o)) = .known p (a.opOf p) (a.textOf p) ((a.argsOf p).map (treeOf a n)) := rfl
 
 theorem tree_instruction (a : Ast) (n p o : Nat) : (treeOf a n (some (p, o))).instruction = a.opOf p := by
   cases n <;> rfl
